@@ -19,9 +19,10 @@ Local Open Scope Z_scope.
 
 (* ============================== K: the kernel ============================================== *)
 
-Inductive errno := ENOENT | EEXIST | ENOTDIR | EISDIR | ENOTEMPTY | ELOOP | EINVAL | EBADF | EBUSY.
+Inductive errno := ENOENT | EEXIST | ENOTDIR | EISDIR | ENOTEMPTY | ELOOP | EINVAL | EBADF | EBUSY | EIO.
 
 Definition is_enotempty (e : errno) : bool := match e with ENOTEMPTY => true | _ => false end.
+Definition is_eexist (e : errno) : bool := match e with EEXIST => true | _ => false end.
 
 (* components of a path text: the kernel splits at '/' only *)
 Fixpoint split_slash (p : str) : list str :=
@@ -111,7 +112,8 @@ Definition k_open (st : state) (path : str) (rd wr creat excl trunc : bool) : st
       if creat && excl then (st, inr EEXIST)
       else if trunc then (set_root st (upd (root st) (d ++ [nm]) (Some (NFile []))), inl (mk (d ++ [nm]) false))
       else (st, inl (mk (d ++ [nm]) false))
-  | WAt d nm (Some SDir) => if wr || creat then (st, inr EISDIR) else (st, inl (mk (d ++ [nm]) true))
+  | WAt d nm (Some SDir) => if creat && excl then (st, inr EEXIST)
+                            else if wr || creat then (st, inr EISDIR) else (st, inl (mk (d ++ [nm]) true))
   | WAt d nm (Some (SLink _)) => (st, inr EEXIST)        (* only with O_CREAT|O_EXCL *)
   end.
 
@@ -142,16 +144,30 @@ Definition k_lseek (st : state) (f : fd) (off : Z) (whence : nat) : fd * Z :=
   if target <? 0 then (f, -1)
   else ({| fd_path := fd_path f; fd_pos := Z.to_nat target; fd_rd := fd_rd f; fd_wr := fd_wr f; fd_dir := fd_dir f |}, target).
 
-(* sendfile(dst, src, NULL, count): as many bytes as the source has, at most count *)
-Definition k_sendfile (st : state) (dst src : fd) (count : nat) : state * (nat + errno) :=
-  if fd_dir src || fd_dir dst || negb (fd_rd src) || negb (fd_wr dst) then (st, inr EINVAL)
+(* What one transfer call does is the kernel's choice: it may move fewer bytes than asked for
+   (Linux never moves more than 0x7ffff000 per call, a signal may cut it short) or fail (EIO,
+   ENOSPC).  An outcome oracle makes that choice an input: no entry = everything asked for. *)
+Inductive xfer := XFail | XAtMost (n : nat).
+
+Definition fd_advance (f : fd) (n : nat) : fd :=
+  {| fd_path := fd_path f; fd_pos := fd_pos f + n; fd_rd := fd_rd f; fd_wr := fd_wr f; fd_dir := fd_dir f |}.
+
+(* sendfile(dst, src, NULL, count): bytes from the cursor of src to the cursor of dst, both move *)
+Definition k_sendfile (st : state) (dst src : fd) (count : nat) (x : option xfer) : state * fd * fd * (nat + errno) :=
+  if fd_dir src || fd_dir dst || negb (fd_rd src) || negb (fd_wr dst) then (st, dst, src, inr EINVAL)
   else
-    match get (root st) (fd_path dst) with
-    | Some (NFile c0) =>
-        let d := firstn count (skipn (fd_pos src) (content_at (root st) (fd_path src))) in
-        let c := overwrite c0 (fd_pos dst) d in
-        (set_root st (upd (root st) (fd_path dst) (Some (NFile c))), inl (length d))
-    | _ => (st, inr EBADF)
+    match x with
+    | Some XFail => (st, dst, src, inr EIO)
+    | _ =>
+        let lim := match x with Some (XAtMost n) => Nat.min n count | _ => count end in
+        match get (root st) (fd_path dst) with
+        | Some (NFile c0) =>
+            let d := firstn lim (skipn (fd_pos src) (content_at (root st) (fd_path src))) in
+            let c := overwrite c0 (fd_pos dst) d in
+            (set_root st (upd (root st) (fd_path dst) (Some (NFile c))),
+             fd_advance dst (length d), fd_advance src (length d), inl (length d))
+        | _ => (st, dst, src, inr EBADF)
+        end
     end.
 
 Definition k_mknode (st : state) (path : str) (n : node) : state * option errno :=
@@ -404,11 +420,32 @@ Definition f_rename (st : state) (from to : str) (failIfExists : bool) : state *
     end
   else let (st', e) := k_rename st from to in (st', is_none e).
 
+(* the transfer loop of File::copy: sendfile until nothing is left; an error or a call that moves
+   nothing ends it with failure.  Every successful round moves at least one byte, so `left` + 1
+   rounds of fuel are enough. *)
+Fixpoint xfer_loop (fuel : nat) (orc : list xfer) (st : state) (dst src : fd) (left : nat) : state * bool :=
+  match left with
+  | O => (st, true)
+  | S _ =>
+      match fuel with
+      | O => (st, false)
+      | S f =>
+          match k_sendfile st dst src left (hd_error orc) with
+          | (st1, dst1, src1, inl n) =>
+              if Nat.eqb n 0 then (st1, false) else xfer_loop f (tl orc) st1 dst1 src1 (left - n)
+          | (st1, _, _, inr _) => (st1, false)
+          end
+      end
+  end.
+
 (* File::copy(src, destination, failIfExists); repaired (fixes/C19/06): a source that is not a
    regular file is refused before the destination is touched; (fixes/C19/07): the destination is
    opened without O_TRUNC, refused when it is the source itself (same inode), and only then
-   truncated (otherwise copy(f, f, false) emptied f) *)
-Definition f_copy (st : state) (src dst : str) (failIfExists : bool) : state * bool :=
+   truncated (otherwise copy(f, f, false) emptied f); (fixes/C19/09): the destination is first
+   opened with O_CREAT | O_EXCL, so that the code knows whether it created the file, the transfer
+   is a loop (one sendfile call may legally move less than asked), and a destination the call
+   created is unlinked again when the transfer fails.  `orc` = outcomes of the sendfile calls. *)
+Definition f_copy_o (orc : list xfer) (st : state) (src dst : str) (failIfExists : bool) : state * bool :=
   match k_open st src true false false false false with
   | (st1, inr _) => (st1, false)
   | (st1, inl fs) =>
@@ -420,17 +457,28 @@ Definition f_copy (st : state) (src dst : str) (failIfExists : bool) : state * b
           let (fs2, z) := k_lseek st1 fs1 0 0 in
           if z <? 0 then (st1, false)
           else
-            match k_open st1 dst false true true failIfExists false with
-            | (st2, inr _) => (st2, false)
-            | (st2, inl fdst) =>
-                if same_file fs2 fdst then (st2, false)                  (* fstat: same st_dev, st_ino -> EINVAL *)
-                else
-                  match k_sendfile (k_ftruncate0 st2 fdst) fdst fs2 (Z.to_nat size) with
-                  | (st3, inl n) => (st3, Z.of_nat n =? size)
-                  | (st3, inr _) => (st3, false)
-                  end
+            let '(st2, r, created) :=
+              match k_open st1 dst false true true true false with          (* O_CREAT | O_EXCL | O_WRONLY *)
+              | (s, inl f) => (s, inl f, true)
+              | (s, inr e) =>
+                  if is_eexist e && negb failIfExists
+                  then let (s', r') := k_open s dst false true true false false in (s', r', false)
+                  else (s, inr e, false)
+              end in
+            match r with
+            | inr _ => (st2, false)
+            | inl fdst =>
+                let '(st3, ok) :=
+                  if same_file fs2 fdst then (st2, false)              (* fstat: same st_dev, st_ino -> EINVAL *)
+                  else xfer_loop (S (Z.to_nat size)) orc (k_ftruncate0 st2 fdst) fdst fs2 (Z.to_nat size) in
+                if ok then (st3, true)
+                else if created then (fst (k_unlink st3 dst), false)
+                else (st3, false)
             end
   end.
+
+(* every transfer call moves all it was asked for *)
+Definition f_copy : state -> str -> str -> bool -> state * bool := f_copy_o [].
 
 (* Directory::exists: stat + S_ISDIR *)
 Definition d_exists (st : state) (dir : str) : bool :=
@@ -510,7 +558,7 @@ Inductive fsop :=
 | OpMkdir (p : str) | OpMkfile (p : str) (c : list Z) | OpMklink (target p : str)
 | OpOpen (h : nat) (p : str) (fr fw fa fo : bool) | OpClose (h : nat) | OpHandle (h : nat) (o : hop)
 | OpFUnlink (p : str) | OpSymlink (target p : str)
-| OpRename (a b : str) (fie : bool) | OpCopy (a b : str) (fie : bool)
+| OpRename (a b : str) (fie : bool) | OpCopy (a b : str) (fie : bool) (orc : list xfer)
 | OpCreate (p : str) | OpDUnlink (p : str) (recursive : bool).
 
 Definition fs_step (st : state) (o : fsop) : state :=
@@ -524,7 +572,7 @@ Definition fs_step (st : state) (o : fsop) : state :=
   | OpFUnlink p => fst (f_unlink st p)
   | OpSymlink t p => fst (f_symlink st t p)
   | OpRename a b fie => fst (f_rename st a b fie)
-  | OpCopy a b fie => fst (f_copy st a b fie)
+  | OpCopy a b fie orc => fst (f_copy_o orc st a b fie)
   | OpCreate p => fst (d_create (create_fuel p) st p)
   | OpDUnlink p r => fst (d_unlink (unlink_fuel st) st p r)
   end.
